@@ -9,7 +9,7 @@ from fractions import Fraction
 import z3
 
 from .values import *   # noqa
-from .values import (Unsupported, PyRaise, Cx, VTuple, VList, VDict, VMap, VOpt, VObj, VSym, VClass, VComp,
+from .values import (Unsupported, PyRaise, Cx, VTuple, VList, VDict, VMap, VOpt, VObj, VSym, VClass, VComp, VArrN, VArrTag,
                      VFunc, VBuiltin, VModule, VBoundMethod, VExcInstance, VStr, NAN, INF)
 
 PI = z3.Real("pi")
@@ -550,7 +550,57 @@ def _b_log(interp, st, args, kw):
 def _b_identity(interp, st, args, kw):
     interp.assumed.add("A2 numpy.asarray/array: identity on element values (index semantics)")
     v = interp.resolve(st, args[0])
+    if isinstance(v, (VTuple, VList)) and not isinstance(v, VArrN):
+        return VArrN(list(v.items))
     return v
+
+
+INTERP_RE = z3.Function("interp_re", z3.RealSort(), z3.IntSort(), z3.IntSort(), z3.RealSort())
+INTERP_IM = z3.Function("interp_im", z3.RealSort(), z3.IntSort(), z3.IntSort(), z3.RealSort())
+INTERP_NAN = z3.Function("interp_nan_outside", z3.RealSort(), z3.IntSort(), z3.IntSort(), z3.RealSort())
+_TAGS = {}
+
+
+def tag_id(name):
+    if name not in _TAGS:
+        _TAGS[name] = len(_TAGS) + 1
+    return z3.IntVal(_TAGS[name])
+
+
+def _b_np_interp(interp, st, args, kw):
+    """numpy.interp(x, xp, fp, left=None, right=None) (A2): piecewise-linear interpolant of the
+    table (xp, fp), clamped to the end values unless left/right are given.  The table columns are
+    opaque; which column is the axis and whether clamping applies is what the contracts check."""
+    x = interp.resolve(st, args[0])
+    xp, fp = args[1], args[2]
+    if not (isinstance(xp, VArrTag) and isinstance(fp, VArrTag)):
+        raise Unsupported("np.interp on non-table arguments")
+    left = kw.get("left", args[3] if len(args) > 3 else None)
+    right = kw.get("right", args[4] if len(args) > 4 else None)
+    interp.assumed.add("A2 numpy.interp: piecewise linear in xp, end-clamped unless left/right given")
+    if left is None and right is None:
+        return Cx(INTERP_RE(to_real(x), tag_id(xp.name), tag_id(fp.name)),
+                  INTERP_IM(to_real(x), tag_id(xp.name), tag_id(fp.name)))
+    if left is NAN and right is NAN:
+        return INTERP_NAN(to_real(x), tag_id(xp.name), tag_id(fp.name))
+    raise Unsupported("np.interp with left/right other than NaN")
+
+
+def _b_np_sum(interp, st, args, kw):
+    v = interp.resolve(st, args[0])
+    axis = kw.get("axis")
+    if isinstance(v, VArrN):
+        if axis not in (None, 0):
+            raise Unsupported("np.sum axis=%r on the materials axis model" % (axis,))
+        interp.assumed.add("A2 numpy.sum: sum along the first (materials) axis / of all entries of a 1-D array")
+        from ast import Add
+        total = 0
+        for x in v.items:
+            total = interp.binop(st, Add(), total, x)
+        return total
+    if is_num(v) or isinstance(v, Cx):
+        return v
+    raise Unsupported("np.sum of %r" % type(v).__name__)
 
 
 def _b_np_maximum(interp, st, args, kw):
@@ -657,6 +707,8 @@ def _np_namespace():
         "ones_like": VBuiltin("np.ones_like", _b_np_ones_like),
         "pi": None, "nan": NAN, "inf": INF, "isnan": VBuiltin("np.isnan", _b_isnan),
         "radians": VBuiltin("np.radians", _b_radians), "cos": VBuiltin("np.cos", _b_cos_generic),
+        "interp": VBuiltin("np.interp", _b_np_interp), "sum": VBuiltin("np.sum", _b_np_sum),
+        "asarray": VBuiltin("np.asarray", _b_identity),
     }
     return ns
 
@@ -679,7 +731,7 @@ def library(base, attr):
             "exp": _b_exp, "expm1": _b_expm1, "log": _b_log,
             "asarray": _b_identity, "array": _b_identity,
             "radians": _b_radians, "cos": _b_cos_generic, "isnan": _b_isnan,
-            "maximum": _b_np_maximum,
+            "maximum": _b_np_maximum, "interp": _b_np_interp, "sum": _b_np_sum,
         }
         if attr == "inf":
             return INF
